@@ -1,3 +1,195 @@
 import Driver.Common
--- stub driver for C05 (replaced when the property's model is built)
-def main (args : List String) : IO UInt32 := Driver.main' (fun _ => "bad-op") (fun _ _ => "fail bad-op") args
+import GilVerif.Model.C05
+open Driver GilVerif.Model.C05
+
+/-! Model driver and Spec judge for C05.  Op vocabulary: see harness/C05/main.cpp.  Channel lists are in memory order. -/
+
+def codes (s : String) : List Nat := s.toList.map Char.toNat
+
+def commaInts (s : String) : Option (List Int) := if s = "-" then some [] else (s.splitOn ",").mapM String.toInt?
+def showComma (xs : List Int) : String := if xs.isEmpty then "-" else ",".intercalate (xs.map toString)
+
+def splitBar (ws : List String) : List String × List String :=
+  let a := ws.takeWhile (· ≠ "|"); (a, (ws.dropWhile (· ≠ "|")).drop 1)
+
+def fn (xs : List Int) : Nat → Int := fun k => xs.getD k 0
+def toList (n : Nat) (p : Nat → Int) : List Int := (List.range n).map p
+def b01 (b : Bool) : String := if b then "1" else "0"
+
+/-- the layout (generated table) of a name -/
+def layoutOf (name : String) : Option Layout := (lookup (codes name)).map (·.2)
+/-- the layout the NAME demands (Spec) -/
+def specOf (name : String) : Option Layout := (lookup (codes name)).map (fun e => specMapping (codes name) e.1)
+
+def identity (n : Nat) : Layout := List.range n
+
+/-- bits per colour of the packed size sets -/
+def sizeSet (t : String) : Option (List Nat) :=
+  match t with
+  | "p565" => some [5, 6, 5] | "p332" => some [3, 3, 2] | "p4444" => some [4, 4, 4, 4] | "p5551" => some [5, 5, 5, 1]
+  | "g4" => some [4] | "c4444" => some [4, 4, 4, 4] | _ => none
+
+def chanBytes (t : String) : Option Nat :=
+  match t with | "u8" => some 1 | "u16" => some 2 | "f32" => some 4 | _ => none
+
+/-- ChannelBitSizes in memory order: slot k holds the colour `type_to_index<mapping,k>` -/
+def physSizes (m : Layout) (byColour : List Nat) : List Nat := (List.range m.length).map (fun k => byColour.getD (typeToIndex m k) 0)
+def prefixSums (ws : List Nat) : List Nat := (List.range ws.length).map (fun k => (ws.take k).foldl (· + ·) 0)
+
+/-- the mapping through which destination model `dm` of layout `dl` is written -/
+def dstMapping (dm : String) (dl : Layout) : Layout :=
+  if dm = "W" then (List.range dl.length).map (fun k => mappingTransform (identity dl.length) dl k)   -- planar reference bound to the pixel
+  else dl
+
+def modelPair (dm sm : String) (dl sl : Layout) (v w : List Int) : String :=
+  let n := dl.length
+  let md := dstMapping dm dl
+  let src := fn v
+  let c := if dm = "V" ∨ dm = "K" then showComma (toList n (construct dl sl src)) else "-"
+  let a := staticCopy sl md src (fn w)
+  let before := staticEqual md sl (fn w) src
+  let after := staticEqual md sl a src
+  let ne := !(staticEqual sl md src a)
+  s!"C={c} A={showComma (toList n a)} E={b01 after} N={b01 before} S={showComma v} I={b01 ne}"
+
+def modelAcc (t m : String) (l : Layout) (v : List Int) : String :=
+  let n := l.length
+  let p := fn v
+  let sem := (List.range n).map (fun s => semanticAt l p s)
+  let col := (List.range n).map (fun s => getColor l p s)
+  let idx := if m = "K" ∨ m = "B" then "-" else showComma v
+  let off : List Int :=
+    if m = "P" then (List.range n).map (fun (k : Nat) => Int.ofNat k)
+    else match chanBytes t, sizeSet t with
+      | some cb, _ => (List.range n).map (fun (k : Nat) => Int.ofNat (k * cb))
+      | none, some sz => (prefixSums (physSizes l sz)).map (fun (x : Nat) => Int.ofNat x)
+      | none, none => []
+  s!"at={showComma v} sem={showComma sem} col={showComma col} idx={idx} off={showComma off}"
+
+def modelAlg (l1 l2 : Layout) (v w : List Int) : String :=
+  let n := l1.length
+  let p1 := fn v; let p2 := fn w
+  let fill := toList n (staticFill l1 p1 7)
+  let gen := toList n (staticGenerate l1 p1 (fun s => 100 + (s : Int)))
+  let fe1 := (visitOrder l1).map p1
+  let fe2 := (visitPairs l1 l2).map (fun (a, b) => p1 a * 1000 + p2 b)
+  let fe3 := (visitPairs l1 l2).map (fun (a, b) => (p1 a * 1000 + p2 b) * 1000 + p1 a)
+  let zero : Nat → Int := fun _ => 0
+  let tr1 := toList n (staticTransform l1 l2 p1 zero (· + 1))
+  let tr2 := toList n (staticTransform2 l1 l2 l2 p1 p2 zero (fun a b => a * 16 + b))
+  let mn := staticMinIdx l1 p1; let mx := staticMaxIdx l1 p1
+  let eq := staticEqual l1 l2 p1 p2
+  let cp := toList n (staticCopy l1 l2 p1 p2)
+  s!"fill={showComma fill} gen={showComma gen} fe1={showComma fe1} fe2={showComma fe2} fe3={showComma fe3} tr1={showComma tr1} tr2={showComma tr2} min={p1 mn} max={p1 mx} minat={mn} maxat={mx} eq={b01 eq} cp={showComma cp}"
+
+def model (line : String) : String :=
+  match words line with
+  | "pair" :: _ :: _ :: dm :: dl :: sm :: sl :: rest =>
+    let (a, b) := splitBar rest
+    match layoutOf dl, layoutOf sl, ints a, ints b with
+    | some dl, some sl, some v, some w =>
+      if v.length ≠ sl.length ∨ w.length ≠ dl.length ∨ dl.length ≠ sl.length then "bad-op" else modelPair dm sm dl sl v w
+    | _, _, _, _ => "bad-op"
+  | "acc" :: _ :: t :: m :: l :: rest =>
+    match layoutOf l, ints rest with
+    | some l, some v => if v.length ≠ l.length then "bad-op" else modelAcc t m l v
+    | _, _ => "bad-op"
+  | "alg" :: _ :: _ :: l1 :: l2 :: rest =>
+    let (a, b) := splitBar rest
+    match layoutOf l1, layoutOf l2, ints a, ints b with
+    | some l1, some l2, some v, some w =>
+      if v.length ≠ l1.length ∨ w.length ≠ l2.length ∨ l1.length ≠ l2.length then "bad-op" else modelAlg l1 l2 v w
+    | _, _, _, _ => "bad-op"
+  | _ => "bad-op"
+
+/-! ### judge: the Spec (layout NAME spells the memory order; channels are paired by colour) -/
+
+def fail (s : String) : String := "fail " ++ s
+
+/-- fields `key=value` of an observation -/
+def field (ws : List String) (key : String) : Option String :=
+  (ws.find? (fun w => w.startsWith (key ++ "="))).map (fun w => (w.drop (key.length + 1)).toString)
+
+def listField (ws : List String) (key : String) : Option (List Int) := (field ws key).bind commaInts
+
+def sameMultiset (a b : List Int) : Bool := a.length == b.length && a.all (fun x => a.count x == b.count x)
+
+def firstFail (checks : List (Bool × String)) : String :=
+  match checks.find? (fun c => !c.1) with
+  | some c => fail c.2
+  | none => "ok"
+
+def judgePair (dm : String) (md ms : Layout) (v w : List Int) (ows : List String) : String :=
+  let n := md.length
+  let paired (d : List Int) : Bool := d.length == n && (List.range n).all (fun s => d.getD (md.phys s) 0 == v.getD (ms.phys s) 0)
+  match listField ows "A", field ows "C", field ows "E", field ows "N", listField ows "S", field ows "I" with
+  | some a, some c, some e, some nb, some s, some i =>
+    let cOk := if dm = "V" ∨ dm = "K" then (match commaInts c with | some cl => paired cl | none => false) else c == "-"
+    firstFail [(cOk, "construct-by-colour"), (paired a, "assign-by-colour"), (e == "1", "assign-then-equal"),
+               (i == "0", "not-equal-consistent"), (nb == b01 (paired w), "equal-by-colour"), (s == v, "source-unchanged")]
+  | _, _, _, _, _, _ => fail "shape"
+
+def judgeAcc (t m : String) (l : Layout) (v : List Int) (ows : List String) : String :=
+  let n := l.length
+  let sem := (List.range n).map (fun s => v.getD (l.phys s) 0)
+  let offExp : List Int :=
+    if m = "P" then (List.range n).map (fun (k : Nat) => Int.ofNat k)
+    else match chanBytes t, sizeSet t with
+      | some cb, _ => (List.range n).map (fun (k : Nat) => Int.ofNat (k * cb))
+      | none, some sz => (prefixSums (physSizes l sz)).map (fun (x : Nat) => Int.ofNat x)
+      | none, none => []
+  match listField ows "at", listField ows "sem", listField ows "col", field ows "idx", listField ows "off" with
+  | some atv, some sm, some cl, some ix, some off =>
+    firstFail [(atv == v, "at_c-memory-order"), (sm == sem, "semantic_at_c-mapping"), (cl == sem, "get_color-mapping"),
+               (if m = "K" ∨ m = "B" then ix == "-" else commaInts ix == some v, "operator[]-memory-order"), (off == offExp, "at_c-position")]
+  | _, _, _, _, _ => fail "shape"
+
+def judgeAlg (m1 m2 : Layout) (v w : List Int) (ows : List String) : String :=
+  let n := m1.length
+  let a (s : Nat) : Int := v.getD (m1.phys s) 0
+  let b (s : Nat) : Int := w.getD (m2.phys s) 0
+  let sems := List.range n
+  let bySem (d : List Int) (m : Layout) (f : Nat → Int) : Bool := d.length == n && sems.all (fun s => d.getD (m.phys s) 0 == f s)
+  match listField ows "fill", listField ows "gen", listField ows "fe1", listField ows "fe2", listField ows "fe3",
+        listField ows "tr1", listField ows "tr2" with
+  | some fill, some gen, some fe1, some fe2, some fe3, some tr1, some tr2 =>
+    match (field ows "min").bind String.toInt?, (field ows "max").bind String.toInt?, (field ows "minat").bind String.toNat?,
+          (field ows "maxat").bind String.toNat?, field ows "eq", listField ows "cp" with
+    | some mn, some mx, some mnat, some mxat, some eq, some cp =>
+      firstFail [
+        (fill == List.replicate n 7, "fill"),
+        (bySem gen m1 (fun s => 100 + (s : Int)), "generate-each-channel-once"),
+        (sameMultiset fe1 v, "for_each-each-channel-once"),
+        (sameMultiset fe2 (sems.map (fun s => a s * 1000 + b s)), "for_each-pairs-by-colour"),
+        (sameMultiset fe3 (sems.map (fun s => (a s * 1000 + b s) * 1000 + a s)), "for_each-triples-by-colour"),
+        (bySem tr1 m2 (fun s => a s + 1), "transform-by-colour"),
+        (bySem tr2 m2 (fun s => a s * 16 + b s), "transform2-by-colour"),
+        (v.all (fun x => mn ≤ x) && v.contains mn, "min"), (v.all (fun x => x ≤ mx) && v.contains mx, "max"),
+        (v.getD mnat (mn - 1) == mn, "min-reference"), (v.getD mxat (mx + 1) == mx, "max-reference"),
+        (eq == b01 (sems.all (fun s => a s == b s)), "equal-by-colour"),
+        (bySem cp m2 a, "copy-by-colour")]
+    | _, _, _, _, _, _ => fail "shape"
+  | _, _, _, _, _, _, _ => fail "shape"
+
+def judge (op obs : String) : String :=
+  if obs.startsWith "ub:" ∨ obs.startsWith "assert:" ∨ obs.startsWith "crash" ∨ obs.startsWith "timeout" then
+    fail ("memory-safety " ++ (obs.take 60).toString) else
+  let ows := words obs
+  match words op with
+  | "pair" :: _ :: _ :: dm :: dl :: _ :: sl :: rest =>
+    let (a, b) := splitBar rest
+    match specOf dl, specOf sl, ints a, ints b with
+    | some md, some ms, some v, some w => judgePair dm md ms v w ows
+    | _, _, _, _ => fail "bad-op"
+  | "acc" :: _ :: t :: m :: l :: rest =>
+    match specOf l, ints rest with
+    | some l, some v => judgeAcc t m l v ows
+    | _, _ => fail "bad-op"
+  | "alg" :: _ :: _ :: l1 :: l2 :: rest =>
+    let (a, b) := splitBar rest
+    match specOf l1, specOf l2, ints a, ints b with
+    | some m1, some m2, some v, some w => judgeAlg m1 m2 v w ows
+    | _, _, _, _ => fail "bad-op"
+  | _ => fail "bad-op"
+
+def main (args : List String) : IO UInt32 := Driver.main' model judge args
